@@ -5,6 +5,7 @@ from core import strip, is_field, key_str, key_mentions
 from facts import AnalysisBroken
 from rules import (field_load, check_init, nodeset, ev, Unevaluable, atom_from, ret_const)
 from props import c01
+from props import deps
 from symword import Machine
 import stale
 
@@ -275,6 +276,8 @@ def run(ctx):
     c01.core_dependency(ctx, P, "core.dep", ('fiber_manager_wait_in_mpsc_queue', 'fiber_manager_wait_in_mpsc_queue_and_unlock', 'fiber_manager_wake_from_mpsc_queue'),
                         "the rwlock's sleep/wake path (wait_in_mpsc_queue / wake_from_mpsc_queue)",
                         'a reader or writer resumed early enters the critical section without the lock word saying so')
+    deps.depend(ctx, P, 'C15', 'queue.dep', "the rwlock's waiter queues (mpsc_fifo)",
+                'a reader or writer that the queue drops waits for ever', lambda x: x.rule.startswith(("mpsc.", "mpsc_fifo.")) or x.fn == "mpsc_fifo_init")
     W = Word(P)
     o = ctx.ob("layout", "", "the four bit-fields cover one 64-bit word exactly (1+21+21+21) and `blob` overlays them", "")
     u = {f["name"]: f for f in P.record(UN)["fields"]}
